@@ -828,6 +828,12 @@ def evaluate_payload_template(input, context, template):
                 were itself a Payload Template.
                 """
                 v = copy.deepcopy(input)
+            elif not isinstance(v, str):
+                raise IntrinsicFailure(
+                    "The value for the field '{}.$' must be a STRING that "
+                    "contains a JSONPath or an intrinsic function "
+                    "expression".format(k)
+                )
             elif v.startswith("$"):  # It's a path
                 v = apply_path(input, context, v)
             else:  # It's an Intrinsic Function
